@@ -318,8 +318,7 @@ def run(job, streams=None):
               (got, suite.cipher))
         got = ep.conn.session.getMacName()
         want = None if suite.mac == "aead" else suite.mac
-        if got != want and not (suite.mac == "aead" and got in
-                                ("sha256", "sha384", "aead")):
+        if got != want:
             v("accessor", "session.getMacName", "%r != %r" % (got, want))
     # --- key material re-derivation
     master = bytes(pair.c.conn.session.masterSecret)
